@@ -107,6 +107,11 @@ def generate(rng, tier, i):
             "n": rng.choice([1, 1, 3, 5]), "pyseed": rng.randrange(1 << 30)}
 
 
+def directed():
+    # found by the thorough tier: the orthogonality sanity assertion tripped on rounding noise (repaired in /repo)
+    return [{'cls': 'fixed0', 'W': 1000.0, 'H': 1000.0, 'netlist': {'Modules': {'S2': {'area': 15997.2}, 'H1': {'hard': True, 'rectangles': [[323.917, 1153.211, 278.7, 167.22], [323.917, 1264.6909999999998, 139.35, 55.74]]}, 'S0': {'area': 282461.0}, 'S3': {'area': 282461.0}}, 'Nets': [['S0', 'S3', 100], ['S3', 'S2', 0.5], ['S2', 'H1', 100]]}, 'n': 5, 'pyseed': 377064497}, {'cls': 'fixed1', 'W': 25000.0, 'H': 1000.0, 'netlist': {'Modules': {'F1': {'fixed': True, 'rectangles': [[13875.5, 521.043, 4942.32, 81.8807]]}, 'S2': {'area': 51359.5, 'center': [24021.968, 944.237]}, 'F0': {'fixed': True, 'rectangles': [[22830.4, 94.7716, 2646.51, 180.784]]}, 'H1': {'hard': True, 'rectangles': [[20962.409, 1155.36, 531.47, 425.18]]}, 'H3': {'hard': True, 'rectangles': [[11957.106, 1003.374, 531.47, 318.88], [11957.106, 1215.959, 265.74, 106.29]]}, 'S0': {'area': 75325.0}}, 'Nets': [['F1', 'S0'], ['S0', 'F0', 100], ['F0', 'H3', 3.3], ['H3', 'S2', 100], ['S2', 'H1'], ['H3', 'F1', 'F0', 2], ['S2', 'H3', 'F0', 'F1', 1], ['F1', 'H3', 1], ['S2', 'F0'], ['S2', 'S0']]}, 'n': 5, 'pyseed': 355387198}, {'cls': 'fixed0', 'W': 62.5, 'H': 2.5, 'netlist': {'Modules': {'S1': {'area': 0.277866}, 'H0': {'hard': True, 'rectangles': [[52.047, 2.56, 0.47553, 0.38042]]}, 'S2': {'area': 0.0203532, 'center': [11.739, 0.501]}, 'S3': {'area': 0.755739}}, 'Nets': [['S2', 'H0'], ['H0', 'S3', 0.1], ['S3', 'S1', 10]]}, 'n': 1, 'pyseed': 120647745}]
+
+
 def centroid(rects):
     a = sum(r.area for r in rects)
     return sum(r.center.x * r.area for r in rects) / a, sum(r.center.y * r.area for r in rects) / a
